@@ -233,4 +233,4 @@ def strategy(draw):
 
 def subchecks(tier):
     q = tier == "quick"
-    return [Hyp("trees-with-enumerated-fault-placements", strategy, judge_counted, examples=80 if q else 2400)]
+    return [Hyp("trees-with-enumerated-fault-placements", strategy, judge_counted, examples=64 if q else 2400)]
